@@ -298,7 +298,11 @@ def _worker_init(modname, repo):
 def _worker_run(chunk):
     mod = _WORKER["mod"]
     out = []
+    slow = 0
     for case in chunk:
+        if slow >= 3:      # three cases of this chunk ran into the time limit: the rest of the chunk is not run
+            out.append((case, {"dis": [], "nontrivial": False, "skipped": True}))
+            continue
         arm(getattr(mod, "CASE_TIMEOUT", 20.0))
         try:
             r = mod.check_case(case)
@@ -313,25 +317,72 @@ def _worker_run(chunk):
             raise MachineryError("harness exception on case %r:\n%s" % (case, traceback.format_exc()))
         finally:
             disarm()
+        if any(d.get("clause") in ("Hangs", "Timeout") for d in r.get("dis", [])):
+            slow += 1
         out.append((case, r))
     return out
 
 
+_CURRENT = None        # the Run of this process (set by Run.__init__): lets replay() stop once the verdict is settled
+STOP_AFTER_VIOLATIONS = 400
+
+
+def _settled():
+    r = _CURRENT
+    if r is not None and len(r.violations) >= STOP_AFTER_VIOLATIONS:
+        r.extra["stopped_after_violations"] = len(r.violations)
+        return True
+    return False
+
+
 def replay(modname, cases, procs=16, chunk=200):
-    """Run mod.check_case over cases in a process pool; yields (case, result)."""
+    """Run mod.check_case over cases in a process pool; yields (case, result).  Once several hundred violations are
+    on record the verdict cannot change any more and the remaining cases are not run (a broken tree can make every
+    case slow)."""
     cases = list(cases)
+    if _settled():
+        return
     chunks = [cases[i:i + chunk] for i in range(0, len(cases), chunk)]
     if procs <= 1 or len(cases) < 50:
         _worker_init(modname, REPO)
         for c in chunks:
             for x in _worker_run(c):
                 yield x
+            if _settled():
+                return
         return
     ctx = mp.get_context("fork")
-    with ctx.Pool(procs, initializer=_worker_init, initargs=(modname, REPO)) as pool:
-        for res in pool.imap(_worker_run, chunks):
-            for x in res:
-                yield x
+    from concurrent.futures import ProcessPoolExecutor
+    from concurrent.futures.process import BrokenProcessPool
+    pending = chunks
+    crashes = 0
+    while pending:
+        ex = ProcessPoolExecutor(max_workers=procs, mp_context=ctx, initializer=_worker_init, initargs=(modname, REPO))
+        futs = [ex.submit(_worker_run, c) for c in pending]
+        done = 0
+        try:
+            for f in futs:
+                res = f.result()
+                done += 1
+                for x in res:
+                    yield x
+                if _settled():
+                    ex.shutdown(wait=False, cancel_futures=True)
+                    return
+        except BrokenProcessPool:
+            # a worker died (segmentation fault, abort): the library took the interpreter down.  The chunk whose result was
+            # awaited is reported (its first case stands for it) and the chunks after it are run again in a fresh pool.
+            crashes += 1
+            ex.shutdown(wait=False, cancel_futures=True)
+            bad = pending[done]
+            yield (bad[0], {"dis": [{"clause": "Crash", "detail": "a worker process died (segmentation fault or abort) while cases were being "
+                                     "replayed; this case begins the chunk of %d cases that was awaited" % len(bad)}], "nontrivial": True})
+            pending = pending[done + 1:]
+            if crashes >= 3:
+                return
+            continue
+        ex.shutdown()
+        return
 
 
 # --------------------------------------------------------------------------- findings
@@ -494,6 +545,8 @@ class Run:
         self.traces = 0
         self.nontrivial = set()
         self.samples = []
+        global _CURRENT
+        _CURRENT = self
         self.probe_module = "harness." + prop.lower()
         self._probe = []          # a spread of replayed cases, re-run under a line tracer by anchor_probe()
         self.violations = []
